@@ -18,6 +18,13 @@ import (
 func main() {
 	// debugging aid: vcheck script <script.json> <out.h5> runs an operation script and prints
 	// per-operation results and the logical dump of the reopened file
+	if len(os.Args) >= 3 && os.Args[1] == "fields" {
+		// debugging aid: the field map C07 uses for a file
+		for _, l := range props.C07FieldLines(os.Args[2]) {
+			fmt.Println(l)
+		}
+		return
+	}
 	if len(os.Args) >= 4 && os.Args[1] == "libseed" {
 		// debugging aid: write library seed k (C07/C17) to a file
 		k, _ := strconv.Atoi(os.Args[2])
